@@ -108,4 +108,10 @@ CHECKS = {
         "text": "Each child process runs one fx-assembled decision app with secrets reload, watched file-system rule provider, jwt finalizer / TLS / http_message_signatures key stores, trust store, jwt/introspection/generic authenticators, remote authorizer and contextualizer against a scripted server; the parent enumerates inputs per kind (valid corpus, truncation sweeps, bit flips, empty/cert-only/key-only/unsupported/encrypted/mismatched/cyclic-chain key stores, type-confused rule sets for every field, malformed remote documents, malformed tokens and raw TCP garbage), each journaled with fsync before it is applied. Verdicts: child death or panic text (signature = panic site), watcher stopped (four unanswered valid sentinel writes in a row), previous state lost after a rejected reload, no error response for a malformed token.",
         "note": "fsnotify reloads are asynchronous: a single missed reaction is re-nudged and never a verdict. The trust store is only loaded at start-up in this tree (panic caught on a harness goroutine). Real S3/Kubernetes/Redis are not part of this check.",
     },
+    "C15": {
+        "level": "exploration",
+        "technique": "runtime monitoring: reference rewrite model vs request line/headers/body recorded by an upstream echo server behind the fx-assembled proxy (byte-exact raw client) + direct Backend.CreateURL differential",
+        "text": "Two proxy instances (peer untrusted / trusted) with 10 rules covering every rewrite option receive seeded requests written byte-exact on the socket: pchar paths with arbitrary percent-encoding, queries with repeated/encoded/valueless parameters, all methods, bodies up to 1 MiB, client headers colliding with pipeline headers in random casing/repetition, forwarding headers. The upstream's request line must equal add(strip(client escaped path)) byte for byte, the query must be byte-identical (or equal as multimap minus removed parameters), method/body/Host as required, pipeline headers win, X-Forwarded-Method/-Uri/-Path never arrive, X-Forwarded-For/Forwarded end with the peer address and extend trusted values. Scheme rewrite is checked on Backend.CreateURL.",
+        "note": "Paths use RFC 3986 pchar characters only; with removed parameters the query is compared as multimap with per-key order; with allow_encoded_slashes: on the path is compared after decoding. A trusted peer's X-Forwarded-Method/-Uri/-Host/-Proto carry the actual values (their overriding effect is C09's subject).",
+    },
 }
